@@ -38,6 +38,20 @@ pub struct Validator {
 
 impl Validator {
     pub fn new(tlds: Vec<ToplevelDefinition>) -> Validator {
+        #[cfg(feature = "verif-hooks")]
+        {
+            let mut seen = BTreeMap::<String, String>::new();
+            for tld in &tlds {
+                let module = crate::verif_hooks::tld_module(tld);
+                if let Some(replaced_module) = seen.insert(tld.name().clone(), module.clone()) {
+                    crate::verif_hooks::record(crate::verif_hooks::Event::Keyed {
+                        name: tld.name().clone(),
+                        module,
+                        replaced_module,
+                    });
+                }
+            }
+        }
         Self {
             tlds: tlds
                 .into_iter()
@@ -61,6 +75,8 @@ impl Validator {
             .collect::<Vec<String>>();
         let mut visited_headers = HashSet::<String>::new();
         while let Some(key) = keys.pop() {
+            #[cfg(feature = "verif-hooks")]
+            crate::verif_hooks::tick();
             if matches![
                 self.tlds.get(&key),
                 Some(ToplevelDefinition::Object(ToplevelInformationDefinition {
